@@ -10,6 +10,10 @@ T=[
  ("b3-must-release-operands-swapped","C37","hydro_lang/src/sim/runtime.rs",[("            let must_release = force_nontrivial && out.is_empty();\n            if !must_release && produce().generate(driver).unwrap() {\n                break;\n            }\n\n            let idx = (min_index..current_input.len())","            let must_release = out.is_empty() && force_nontrivial;\n            if !must_release && produce().generate(driver).unwrap() {\n                break;\n            }\n\n            let idx = (min_index..current_input.len())")]),
  ("b4-generator-assign-none","C29","hydro_lang/src/live_collections/keyed_stream/mod.rs",[("                        Generate::Return(out) => {\n                            let _ = existing_state.take(); // TODO(shadaj): garbage collect with termination markers","                        Generate::Return(out) => {\n                            *existing_state = None;"),("                        Generate::Break => {\n                            let _ = existing_state.take(); // TODO(shadaj): garbage collect with termination markers","                        Generate::Break => {\n                            *existing_state = None;")]),
  ("b5-release-loop-while-let","C36","hydro_lang/src/sim/runtime.rs",[("            for item in to_release {\n                self.output.try_send(item).unwrap();\n            }\n        } else {\n            panic!(\"No decision to release\");\n        }\n    }\n}\n\nimpl<T> SimHook for StreamHook<T, NoOrder>","            let mut it = to_release.into_iter();\n            while let Some(item) = it.next() {\n                self.output.try_send(item).unwrap();\n            }\n        } else {\n            panic!(\"No decision to release\");\n        }\n    }\n}\n\nimpl<T> SimHook for StreamHook<T, NoOrder>")]),
+
+ ("b7-tickdrain-explicit-returns","C13","dfir_pipes/src/pull/symmetric_hash_join.rs",[("        loop {\n            return match pull.as_mut().pull(ctx) {\n                PullStep::Ready((k, v), _meta) => {\n                    state.build(k, Cow::Owned(v));\n                    continue;\n                }\n                PullStep::Pending(_) => std::task::Poll::Pending,\n                PullStep::Ended(_) => std::task::Poll::Ready(()),\n            };\n        }","        loop {\n            match pull.as_mut().pull(ctx) {\n                PullStep::Ready((k, v), _meta) => {\n                    state.build(k, Cow::Owned(v));\n                }\n                PullStep::Pending(_) => return std::task::Poll::Pending,\n                PullStep::Ended(_) => return std::task::Poll::Ready(()),\n            }\n        }")]),
+ ("b8-initial-gate-in-local","C30","hydro_lang/src/live_collections/optional.rs",[("        from_previous_tick.or(initial.filter_if(location.optional_first_tick(q!(())).is_some()))","        let first_tick = location.optional_first_tick(q!(())).is_some();\n        let gated = initial.filter_if(first_tick);\n        from_previous_tick.or(gated)")]),
+ ("b9-last-released-via-local","C36","hydro_lang/src/sim/runtime.rs",[("            self.last_released = Some(to_release.clone());","            let snap = to_release.clone();\n            self.last_released = Some(snap);")]),
 ]
 for name,prop,f,edits in T:
     F=REPO+'/'+f; src=open(F).read(); s=src; ok=True
